@@ -921,7 +921,15 @@ func propC06Latest(c *Ctx, lt *ssa.Function, fStart *types.Var) {
 							}
 						}
 						sc := &retScenario{reg: lreg, call: call, vals: vals}
-						if hit, _ := reach(siteOf(call), isInstr(at), sc.cuts()); hit {
+						scCuts := sc.cuts()
+						// together with the assumption itself (tests of the handed-on error in the caller)
+						for e := range cuts.Edges {
+							scCuts.Edges[e] = true
+						}
+						for in := range cuts.Instrs {
+							scCuts.Instrs[in] = true
+						}
+						if hit, _ := reach(siteOf(call), isInstr(at), scCuts); hit {
 							any = true
 						}
 					}
